@@ -1874,3 +1874,8 @@ MA('C05', 'pointwise inner product returns before weighting a single component',
    'out *= self.weights[0]',
    'if len(self.domain) > 1:\n    out *= self.weights[0]',
    'length 1')
+MA('C07', 'Huber without smoothing returns the componentwise l1 proximal',
+   'odl/solvers/functional/default_functionals.py', 'Huber.proximal',
+   'return proximal_huber(space=self.domain, gamma=self.gamma)',
+   'if self.gamma == 0:\n    return proximal_l1(space=self.domain)\nreturn proximal_huber(space=self.domain, gamma=self.gamma)',
+   'gamma = 0')
